@@ -6,6 +6,7 @@ import (
 	"time"
 
 	"github.com/refraction-networking/uquic/internal/protocol"
+	"github.com/refraction-networking/uquic/quicvarint"
 	tls "github.com/refraction-networking/utls"
 )
 
@@ -16,25 +17,43 @@ func (tp *TransportParameters) PopulateFromUQUIC(quicparams tls.TransportParamet
 	for pIdx, param := range quicparams {
 		switch param.ID() {
 		case uint64(maxIdleTimeoutParameterID):
-			tp.MaxIdleTimeout = time.Duration(param.(tls.MaxIdleTimeout)) * time.Millisecond
+			if v, ok := uquicParamVarint(param); ok {
+				tp.MaxIdleTimeout = time.Duration(v) * time.Millisecond
+			}
 		case uint64(initialMaxDataParameterID):
-			tp.InitialMaxData = protocol.ByteCount(param.(tls.InitialMaxData))
+			if v, ok := uquicParamVarint(param); ok {
+				tp.InitialMaxData = protocol.ByteCount(v)
+			}
 		case uint64(initialMaxStreamDataBidiLocalParameterID):
-			tp.InitialMaxStreamDataBidiLocal = protocol.ByteCount(param.(tls.InitialMaxStreamDataBidiLocal))
+			if v, ok := uquicParamVarint(param); ok {
+				tp.InitialMaxStreamDataBidiLocal = protocol.ByteCount(v)
+			}
 		case uint64(initialMaxStreamDataBidiRemoteParameterID):
-			tp.InitialMaxStreamDataBidiRemote = protocol.ByteCount(param.(tls.InitialMaxStreamDataBidiRemote))
+			if v, ok := uquicParamVarint(param); ok {
+				tp.InitialMaxStreamDataBidiRemote = protocol.ByteCount(v)
+			}
 		case uint64(initialMaxStreamDataUniParameterID):
-			tp.InitialMaxStreamDataUni = protocol.ByteCount(param.(tls.InitialMaxStreamDataUni))
+			if v, ok := uquicParamVarint(param); ok {
+				tp.InitialMaxStreamDataUni = protocol.ByteCount(v)
+			}
 		case uint64(initialMaxStreamsBidiParameterID):
-			tp.MaxBidiStreamNum = protocol.StreamNum(param.(tls.InitialMaxStreamsBidi))
+			if v, ok := uquicParamVarint(param); ok {
+				tp.MaxBidiStreamNum = protocol.StreamNum(v)
+			}
 		case uint64(initialMaxStreamsUniParameterID):
-			tp.MaxUniStreamNum = protocol.StreamNum(param.(tls.InitialMaxStreamsUni))
+			if v, ok := uquicParamVarint(param); ok {
+				tp.MaxUniStreamNum = protocol.StreamNum(v)
+			}
 		case uint64(maxAckDelayParameterID):
-			tp.MaxAckDelay = time.Duration(param.(tls.MaxAckDelay)) * time.Millisecond
+			if v, ok := uquicParamVarint(param); ok {
+				tp.MaxAckDelay = time.Duration(v) * time.Millisecond
+			}
 		case uint64(disableActiveMigrationParameterID):
 			tp.DisableActiveMigration = true
 		case uint64(activeConnectionIDLimitParameterID):
-			tp.ActiveConnectionIDLimit = uint64(param.(tls.ActiveConnectionIDLimit))
+			if v, ok := uquicParamVarint(param); ok {
+				tp.ActiveConnectionIDLimit = v
+			}
 		case uint64(initialSourceConnectionIDParameterID):
 			srcConnIDOverride, ok := param.(tls.InitialSourceConnectionID)
 			if ok {
@@ -48,7 +67,9 @@ func (tp *TransportParameters) PopulateFromUQUIC(quicparams tls.TransportParamet
 				}
 			}
 		case uint64(maxDatagramFrameSizeParameterID):
-			tp.MaxDatagramFrameSize = protocol.ByteCount(param.(tls.MaxDatagramFrameSize))
+			if v, ok := uquicParamVarint(param); ok {
+				tp.MaxDatagramFrameSize = protocol.ByteCount(v)
+			}
 		default:
 			// ignore unknown parameters
 			continue
@@ -57,4 +78,17 @@ func (tp *TransportParameters) PopulateFromUQUIC(quicparams tls.TransportParamet
 
 	// Store the marshaled bytes as the override so Marshal reproduces the exact fingerprint
 	tp.ClientOverride = quicparams.Marshal()
+}
+
+// uquicParamVarint returns the value of a numeric transport parameter. It reads the value
+// the parameter will have on the wire instead of asserting the concrete uTLS type, so that a
+// standard parameter given as a raw tls.FakeQUICTransportParameter (e.g. to pin a
+// non-minimal encoding) is understood as well instead of panicking.
+func uquicParamVarint(param tls.TransportParameter) (uint64, bool) {
+	b := param.Value()
+	v, n, err := quicvarint.Parse(b)
+	if err != nil || n != len(b) {
+		return 0, false
+	}
+	return v, true
 }
